@@ -279,6 +279,8 @@ func c04Bundle(reg *template.Registry, kind string) *jsMemBundle {
 		return translationsDet(reg, 0)
 	case "1":
 		return translationsDet(reg, 1)
+	case "2":
+		return translationsDet(reg, 2)
 	}
 	return nil
 }
@@ -328,7 +330,7 @@ func c04Run(encSrc, encGlobals, kind, tmpl, dataJSON, ijJSON string) string {
 }
 
 func init() {
-	// fields: sources, globals, bundle kind (- | 0 | 1), template, data JSON (hex), ij JSON (hex)
+	// fields: sources, globals, bundle kind (- | 0 identity | 1 reversed | 2 some messages translated to the empty text), template, data JSON (hex), ij JSON (hex)
 	implOps["c04exec"] = func(f []string) string {
 		tmpl, _ := unhx(f[3])
 		dj, _ := unhx(f[4])
@@ -467,8 +469,8 @@ func genC04exec(g *G) {
 	// hand-written programs first
 	for hi, h := range c04Hands {
 		fs := []srcFile{{"hand.soy", h.src}}
-		for _, kind := range []string{"-", "0"} {
-			if kind == "0" && !strings.Contains(h.src, "{msg") {
+		for _, kind := range []string{"-", "0", "2"} {
+			if kind != "-" && !strings.Contains(h.src, "{msg") {
 				continue
 			}
 			g.Add(Case{Req: req("c04exec", encSources(fs), sxGlobals(c04Globals), kind, hxs("h.t"), hxs(h.data), hxs(c04IJ)), NT: true, Class: "hand", NoModel: true,
@@ -494,7 +496,7 @@ func genC04exec(g *G) {
 		}
 		kinds := []string{"-"}
 		if hasMsg {
-			kinds = append(kinds, "0", "1")
+			kinds = append(kinds, "0", "1", "2")
 		}
 		for _, f := range b.files {
 			for _, t := range f.tmpls {
@@ -503,7 +505,7 @@ func genC04exec(g *G) {
 					for _, kind := range kinds {
 						progs++
 						tsrc := t.source()
-						g.Add(Case{Req: req("c04exec", src, sxGlobals(c04Globals), kind, hxs(t.full()), hxs(dj), hxs(c04IJ)), NT: true, Class: "bundle" + map[string]string{"-": "", "0": "+identity-msgs", "1": "+reversed-msgs"}[kind], NoModel: true,
+						g.Add(Case{Req: req("c04exec", src, sxGlobals(c04Globals), kind, hxs(t.full()), hxs(dj), hxs(c04IJ)), NT: true, Class: "bundle" + map[string]string{"-": "", "0": "+identity-msgs", "1": "+reversed-msgs", "2": "+some-empty-translations"}[kind], NoModel: true,
 							Note: fmt.Sprintf("bundle#%d seed=%d %s key=c04:%s|%s|%s", i, g.Seed, t.full(), strings.ReplaceAll(tsrc, " ", " "), dj, kind)})
 					}
 				}
